@@ -257,9 +257,13 @@ static HV check13(const ChunkCase &k, size_t *pads = nullptr) {
 static HV check14(const ChunkCase &k, int *expected_out = nullptr) {
   HV v; auto bad = [&](const std::string &s, const std::string &d) { v.ok = false; v.symptom = s; v.detail = d; return v; };
   std::vector<std::vector<uint8_t>> ins; size_t total = 0; for (auto &l : k.lines) { ins.push_back(solo(l, k.combo)); if (ins.back().empty()) return bad("harness", "line does not assemble alone: " + l); total += ins.back().size(); }
-  size_t n = k.start + total * std::max(1, k.calls) + 128; if (k.tight && !k.internal) n = k.start + total * std::max(1, k.calls) - ins.back().size() + 20 + (k.tight - 1); std::vector<uint8_t> ext(n, 0xcc);
+  size_t n = k.start + total * std::max(1, k.calls) + 128; if (k.tight && !k.internal) n = k.start + total * std::max(1, k.calls) - ins.back().size() + 20 + (k.tight - 1);
+  // positions beyond 2^27: a caller buffer of up to 2 GiB whose pages exist only where they are touched
+  const bool huge = !k.internal && k.start >= (1 << 27); std::vector<uint8_t> ext(huge ? 0 : n, 0xcc);
+  struct Lazy { void *p = nullptr; size_t n = 0; ~Lazy() { if (p) munmap(p, n); } } lazy;
+  if (huge) { if (n > 0x7fffffffULL) return bad("harness", "buffer beyond INT_MAX"); lazy.p = mmap(nullptr, n, PROT_READ | PROT_WRITE, MAP_PRIVATE | MAP_ANONYMOUS | MAP_NORESERVE, -1, 0); if (lazy.p == MAP_FAILED) { lazy.p = nullptr; return v; /* no address space: nothing to observe */ } lazy.n = n; }
   al::heap_fill((unsigned)k.c * 5u + (unsigned)k.start + (unsigned)k.lines.size());
-  assemblyline_t a = asm_create_instance(k.internal ? nullptr : ext.data(), (int)n);
+  assemblyline_t a = asm_create_instance(k.internal ? nullptr : huge ? (uint8_t *)lazy.p : ext.data(), (int)n);
   if (k.pre) { spec::Opts o = combo_opts(k.combo); prelife(a, k.pre, o.mov, o.swap, o.nobase, k.lines); } else al::apply_opts(a, combo_opts(k.combo));
   asm_set_offset(a, k.start);
   size_t pos = k.start;
@@ -379,6 +383,23 @@ void prop_c14(hz::Ctx &ctx) {
       ctx.cls("part:long-internal"); ctx.cls("buffer:library-managed"); if (want >= 1) ctx.nontrivial(id);
       if (ctx.want_sample()) ctx.put_sample(std::to_string(nl) + " lines on the library-managed buffer, chunk " + std::to_string(k.c) + " -> " + (v.ok ? "count " + std::to_string(want) : v.symptom));
       if (!v.ok) { hz::Failure f = failck(k, v); f.caseid = serck(k); f.text = std::to_string(nl) + " lines, library-managed buffer [chunk " + std::to_string(k.c) + "]"; ctx.fail(f); }
+    }
+  }
+  // positions and chunk sizes up to the limits of the int interface: a caller buffer of up to 2 GiB (lazily mapped), starts around 2^27..2^31-200,
+  // chunk sizes around 2^29, 2^30 and INT_MAX - the next boundary lies below, at or beyond 2^31
+  {
+    static const long long ST[] = {(1LL << 27) + 3, (1LL << 30) - 5, (1LL << 30) + 11, 0x5000000bLL, 0x7ffffe00LL, 0x60000000LL - 7, 0x3ffffffbLL};
+    static const int CH[] = {0x40000000, 0x20000000, 0x7fffffff, 0x10000, 16, 0x3fffffff, 0x60000000, 0x40000001};
+    auto reps14 = length_reps(P, ctx.seed + 3);
+    for (int si = 0; si < 7; si++) for (int ci = 0; ci < 8; ci++) for (int var = 0; var < (ctx.thorough() ? 4 : 1); var++) {
+      if (!ctx.take()) continue;
+      ChunkCase k; k.counting = true; k.c = CH[ci]; k.start = (int)ST[si] + var * 3; k.combo = (si * 5 + ci + var) % 12; k.calls = 1 + (si + ci) % 2;
+      for (int i = 0; i < 5; i++) k.lines.push_back(reps14[(si * 3 + ci + i * 7 + var) % reps14.size()]);
+      std::string id = serck(k); if (!ctx.begin(id, "counting at position " + std::to_string(k.start) + " with chunk " + std::to_string(k.c))) continue;
+      int want = 0; HV v = check14(k, &want);
+      ctx.cls("part:huge-positions"); ctx.nontrivial(id);
+      if (ctx.want_sample()) ctx.put_sample("5 lines at position " + std::to_string(k.start) + " of a lazily mapped caller buffer, chunk " + std::to_string(k.c) + " -> " + (v.ok ? "count " + std::to_string(want) : v.symptom));
+      if (!v.ok) ctx.fail(failck(k, v));
     }
   }
   // growth of the library-managed buffer in the middle of counting: one-byte nops up to a few bytes before a growth threshold, then two long
